@@ -276,6 +276,7 @@ struct Stats {
     optmap_inlined: usize,
     guard_match: usize,
     nested_lifted: usize,
+    for_each_loops: usize,
 }
 
 struct OpRewriter<'a> {
@@ -645,6 +646,70 @@ impl VisitMut for RenameCalls {
     }
 }
 
+/// R16: `M.for_each(|k, v| { BODY; Ok(()) })?;` → `for (k, v) in M.vx_entries()? { BODY }` (opt-in). The closure body must be a
+/// block ending in `Ok(())` and must not contain `return` (inside the closure it would mean "next entry").
+struct ForEachLoop<'a> {
+    stats: &'a mut Stats,
+}
+struct HasReturn(bool);
+impl<'ast> Visit<'ast> for HasReturn {
+    fn visit_expr_return(&mut self, _: &'ast syn::ExprReturn) {
+        self.0 = true;
+    }
+    fn visit_expr_closure(&mut self, _: &'ast syn::ExprClosure) {}
+}
+impl<'a> VisitMut for ForEachLoop<'a> {
+    fn visit_block_mut(&mut self, b: &mut syn::Block) {
+        for st in b.stmts.iter_mut() {
+            let mut repl: Option<syn::Stmt> = None;
+            if let syn::Stmt::Expr(syn::Expr::Try(t), Some(_)) = st {
+                if let syn::Expr::MethodCall(mc) = &*t.expr {
+                    if mc.method == "for_each" && mc.args.len() == 1 {
+                        if let syn::Expr::Closure(c) = &mc.args[0] {
+                            let body = match &*c.body {
+                                syn::Expr::Block(bl) => bl.block.clone(),
+                                _ => die("R16: for_each closure body is not a block"),
+                            };
+                            let mut stmts = body.stmts.clone();
+                            let last_ok = match stmts.last() {
+                                Some(syn::Stmt::Expr(e, None)) => e.to_token_stream().to_string().replace(' ', "") == "Ok(())",
+                                _ => false,
+                            };
+                            if !last_ok {
+                                die("R16: for_each closure does not end in Ok(())");
+                            }
+                            stmts.pop();
+                            let mut hr = HasReturn(false);
+                            for s in &stmts {
+                                hr.visit_stmt(s);
+                            }
+                            if hr.0 {
+                                die("R16: for_each closure contains `return`");
+                            }
+                            let pats: Vec<syn::Pat> = c
+                                .inputs
+                                .iter()
+                                .map(|p| match p {
+                                    syn::Pat::Type(pt) => (*pt.pat).clone(),
+                                    other => other.clone(),
+                                })
+                                .collect();
+                            let recv = &mc.receiver;
+                            let fl: syn::Expr = syn::parse_quote!(for (#(#pats),*) in #recv.vx_entries()? { #(#stmts)* });
+                            self.stats.for_each_loops += 1;
+                            repl = Some(syn::Stmt::Expr(fl, None));
+                        }
+                    }
+                }
+            }
+            if let Some(r) = repl {
+                *st = r;
+            }
+        }
+        syn::visit_mut::visit_block_mut(self, b);
+    }
+}
+
 fn is_impl_runtime(t: &syn::Type) -> bool {
     if let syn::Type::ImplTrait(it) = t {
         for b in &it.bounds {
@@ -899,6 +964,9 @@ fn emit_fn(ctx: &mut Ctx, d: &FnDir, out: &mut String) {
                 syn::Pat::Type(pt) => pt.pat.to_token_stream().to_string(),
                 other => other.to_token_stream().to_string(),
             };
+            if pn == "_" {
+                continue;
+            }
             if !params.contains(&format!("{}:", pn)) && !params.contains(&format!("{} :", pn)) {
                 die(&format!("closure parameter `{}` of {} #{} is not declared in params=", pn, d.path, k));
             }
@@ -979,6 +1047,10 @@ fn emit_fn(ctx: &mut Ctx, d: &FnDir, out: &mut String) {
         }
     }
 
+    // ---- R16 (opt-in)
+    if d.opts.contains_key("r16") {
+        ForEachLoop { stats: &mut stats }.visit_block_mut(&mut block);
+    }
     // ---- R5 / R6
     LetChain { stats: &mut stats }.visit_block_mut(&mut block);
     if let Some(w) = d.opts.get("desugar_for") {
@@ -1270,7 +1342,7 @@ fn emit_fn(ctx: &mut Ctx, d: &FnDir, out: &mut String) {
     let (nreq, nens) = count_clauses(&d.spec);
     let ninv: usize = d.loops.values().map(|s| count_clauses(&s.replace("invariant", "ensures")).1).sum();
     let rep = format!(
-        "{{\"kind\":\"fn\",\"name\":{},\"file\":{},\"item\":{},\"closure\":{},\"src_lines\":[{},{}],\"src_hash\":\"{:016x}\",\"attrs_dropped\":{},\"rewrites\":{{\"R1_binops\":{},\"R1_neg\":{},\"R2_rt_params\":{},\"R3_tx_lifted\":{},\"R5_letchains\":{},\"R6_for_desugared\":{},\"R10_optmap_inlined\":{},\"R13_guard_match\":{},\"R14_nested_fn_calls_renamed\":{},\"loops\":{},\"substitutions\":[{}]}},\"clauses\":{{\"requires\":{},\"ensures\":{},\"invariants\":{}}},\"novac\":{}}}",
+        "{{\"kind\":\"fn\",\"name\":{},\"file\":{},\"item\":{},\"closure\":{},\"src_lines\":[{},{}],\"src_hash\":\"{:016x}\",\"attrs_dropped\":{},\"rewrites\":{{\"R1_binops\":{},\"R1_neg\":{},\"R2_rt_params\":{},\"R3_tx_lifted\":{},\"R5_letchains\":{},\"R6_for_desugared\":{},\"R10_optmap_inlined\":{},\"R13_guard_match\":{},\"R14_nested_fn_calls_renamed\":{},\"R16_for_each_loops\":{},\"loops\":{},\"substitutions\":[{}]}},\"clauses\":{{\"requires\":{},\"ensures\":{},\"invariants\":{}}},\"novac\":{}}}",
         json_str(&qual),
         json_str(&d.file),
         json_str(&d.path),
@@ -1288,6 +1360,7 @@ fn emit_fn(ctx: &mut Ctx, d: &FnDir, out: &mut String) {
         stats.optmap_inlined,
         stats.guard_match,
         stats.nested_lifted,
+        stats.for_each_loops,
         stats.loops,
         subs_done.iter().map(|s| json_str(s)).collect::<Vec<_>>().join(","),
         nreq,
